@@ -13,6 +13,7 @@ class Ctx:
         self.programs = set()
         self.nontrivial = set()
         self.errors = []           # checker errors (fail closed), not violations
+        self.facts = set()         # cross-instance facts (merged as a set; judged by the property's main)
 
     def ok(self, rule, inst=None, n=1):
         self.applications += n
@@ -60,3 +61,4 @@ class Ctx:
         self.programs |= o.programs
         self.nontrivial |= o.nontrivial
         self.errors += o.errors
+        self.facts |= getattr(o, 'facts', set())
